@@ -7,7 +7,7 @@ Property theorems only.  The model (`Model/AssertRender.lean`) mirrors
 assertion, *with the repairs* `proposed_fixes/C20-float-sign-complex-call.diff` (sign bit in
 `_make_float_literal`, complex rendered as `complex(re, im)`) and
 `proposed_fixes/C20-isinstance-only-resolvable-types.diff` (`_is_type_importable` requires the
-qualified name to resolve).  The unchanged tree's behaviour is kept in `…Old` definitions with
+qualified name to resolve to the class object itself: `World.walk` + identity).  The unchanged tree's behaviour is kept in `…Old` definitions with
 `C20_old_cex_…` theorems.
 
 For every value the observer asserts on (`checkValue`), the rendered statement is valid and
@@ -130,14 +130,57 @@ theorem C20_len (env : RenderEnv) (prec : PyFloat) (ns : Namespace) (src : Strin
   have hnv : (Expr.integer (toDigits n)).valid = true := by simp [Expr.valid, validDigits_toDigits]
   simp [render, Stmt.valid, evalStmt, aeval_source hobs, source_valid hobs, hn, hnv, hl]
 
-/-- The exported file's namespace agrees with what the (repaired) observer checked: walking the
-qualified name of an importable type from `builtins` / the aliased module reaches the type, and
-the path consists of identifiers. -/
+/-- The namespace of the exported file, seen from the observer: the same interpreter state (the
+module objects the observer walked are the ones the test file imports), the module under test is
+bound under its alias and nothing else is bound there that could shadow a name of `builtins`; the
+alias and the parts of an importable type's qualified name are identifiers. -/
 structure EnvOk (te : TypeEnv) (env : RenderEnv) (ns : Namespace) : Prop where
   alias_ok : validIdent (env.alias te.moduleName) = true
-  parts_ok : ∀ t, te.resolves t = true → ∀ p ∈ t.qual, validIdent p = true
-  builtins_flat : ∀ t, te.resolves t = true → t.module = "builtins" → ∃ n, t.qual = [n]
-  ns_types : ∀ t, isTypeImportable te t = true → lookupPath (typePath env t) ns.types = some t
+  parts_ok : ∀ t, isTypeImportable te t = true → ∀ p ∈ t.qual, validIdent p = true
+  builtins_flat : ∀ t, isTypeImportable te t = true → t.module = "builtins" → ∃ n, t.qual = [n]
+  same_world : ns.world = te.world
+  alias_bound : ∀ m, te.sutModule = some m → lookup (env.alias te.moduleName) ns.globals = some m
+  only_alias : ∀ n o, lookup n ns.globals = some o → n = env.alias te.moduleName
+  alias_no_builtin : te.world.getattr te.world.builtins (env.alias te.moduleName) = none
+
+/-- **Resolution by qualified name + identity.**  When `_is_type_importable` accepts a type, the type
+expression `_isinstance_assertion_to_cst` renders for it (`Name` for builtins,
+`alias.Outer.Inner` otherwise) evaluates, in the exported file, to *that very class object* — not
+merely to something. -/
+theorem C20_importable_resolves (te : TypeEnv) (env : RenderEnv) (ns : Namespace)
+    (hok : EnvOk te env ns) (t : TypeId) (himp : isTypeImportable te t = true) :
+    (exprPath (typeExpr env t)).bind ns.resolve = some (.cls t) := by
+  rw [exprPath_typeExpr]
+  simp only [Option.bind_some]
+  unfold typePath
+  split
+  · rename_i hb
+    obtain ⟨n, hn⟩ := hok.builtins_flat t himp hb
+    have hwalk : te.world.getattr te.world.builtins n = some (.cls t) := by
+      simp only [isTypeImportable, typeOwner, hb, beq_self_eq_true, if_true, hn, World.walk] at himp
+      cases hg : te.world.getattr te.world.builtins n with
+      | none => simp [hg] at himp
+      | some o => simpa [hg, World.walk] using himp
+    have hfree : lookup n ns.globals = none := by
+      cases hl : lookup n ns.globals with
+      | none => rfl
+      | some o =>
+        have := hok.only_alias n o hl
+        rw [this, hok.alias_no_builtin] at hwalk
+        cases hwalk
+    simp [hn, joinDots, Namespace.resolve, hfree, hok.same_world, hwalk, World.walk]
+  · rename_i hb
+    have hb' : (t.module == "builtins") = false := by simpa using hb
+    simp only [isTypeImportable, typeOwner, hb', Bool.false_eq_true, if_false] at himp
+    by_cases hm : (t.module == te.moduleName) = true
+    · simp only [hm, if_true] at himp
+      cases hs : te.sutModule with
+      | none => simp [hs] at himp
+      | some m =>
+        simp only [hs, beq_iff_eq] at himp
+        have hm' : t.module = te.moduleName := by simpa using hm
+        simp [Namespace.resolve, hm', hok.alias_bound m hs, hok.same_world, himp]
+    · simp [hm] at himp
 
 /-- The isinstance assertion on an importable type is valid (every name is an identifier) and
 passes on a value of that type. -/
@@ -146,18 +189,20 @@ theorem C20_isInstance (te : TypeEnv) (env : RenderEnv) (prec : PyFloat) (ns : N
     (himp : isTypeImportable te v.typeOf = true) :
     (render env prec (.isInstance src v.typeOf)).valid = true ∧
     evalStmt ns (render env prec (.isInstance src v.typeOf)) = some true := by
-  have hres : te.resolves v.typeOf = true := by
-    simp only [isTypeImportable, Bool.and_eq_true] at himp; exact himp.2
   have hmod : v.typeOf.module = "builtins" ∨ v.typeOf.module = te.moduleName := by
-    simp only [isTypeImportable, Bool.and_eq_true, Bool.or_eq_true, beq_iff_eq] at himp
-    exact himp.1
-  have hparts := hok.parts_ok _ hres
+    simp only [isTypeImportable, typeOwner] at himp
+    by_cases h1 : (v.typeOf.module == "builtins") = true
+    · exact Or.inl (by simpa using h1)
+    · by_cases h2 : (v.typeOf.module == te.moduleName) = true
+      · exact Or.inr (by simpa using h2)
+      · simp [h1, h2] at himp
+  have hparts := hok.parts_ok _ himp
   constructor
   · simp only [render, Stmt.valid, source_valid hobs, Bool.true_and, Bool.and_eq_true]
     unfold typeExpr
     split
     · rename_i hb
-      obtain ⟨n, hn⟩ := hok.builtins_flat _ hres hb
+      obtain ⟨n, hn⟩ := hok.builtins_flat _ himp hb
       have hn' : validIdent n = true := hparts n (by simp [hn])
       have hne := validIdent_ne_empty hn'
       simp only [bne_iff_ne, ne_eq] at hne
@@ -170,7 +215,49 @@ theorem C20_isInstance (te : TypeEnv) (env : RenderEnv) (prec : PyFloat) (ns : N
       have ha : validIdent (env.alias v.typeOf.module) = true := by rw [hm]; exact hok.alias_ok
       exact ⟨valid_foldl _ _ (by simp [Expr.valid, validIdent_ne_empty ha]) hparts,
         namesValid_foldl _ _ (by simp [namesValid, ha]) hparts⟩
-  · simp [render, evalStmt, aeval_source hobs, exprPath_typeExpr, hok.ns_types _ himp, instanceOf]
+  · simp [render, evalStmt, aeval_source hobs, C20_importable_resolves te env ns hok _ himp, instanceOf]
+
+/-- **An isinstance assertion is only recorded for a type that the exported namespace resolves to
+that very type**: whatever `_check_value` records about a value, an `IsInstanceAssertion` among it is
+about the value's own class, and the rendered reference evaluates to that class object. -/
+theorem C20_isinstance_only_resolving (te : TypeEnv) (env : RenderEnv) (ns : Namespace)
+    (hok : EnvOk te env ns) (src : String) (v : AVal) (src' : String) (t : TypeId)
+    (hmem : Assertion.isInstance src' t ∈ checkValue te src v) :
+    src' = src ∧ t = v.typeOf ∧ (exprPath (typeExpr env t)).bind ns.resolve = some (.cls t) := by
+  obtain ⟨h1, h2, h3⟩ := mem_checkValue_isInstance te src v src' t hmem
+  exact ⟨h1, h2, C20_importable_resolves te env ns hok t h3⟩
+
+/-- The module of the counterexample: `@singleton class Registry` (the name is rebound to the
+accessor function, object 7), `class Point` defined twice (the name denotes the second class). -/
+def cexWorld : World :=
+  { getattr := fun o n =>
+      if o = .other 1 ∧ n = "Registry" then some (.other 7)
+      else if o = .other 1 ∧ n = "Point" then some (.cls ⟨"sut", ["Point"], 1⟩)
+      else none,
+    builtins := .other 0 }
+
+/-- Why the identity test is needed: resolution by name alone accepts the hidden `Registry` class and
+the first `Point` class; the rendered `isinstance(var_0, sut_.Registry)` raises (`TypeError`: the
+name denotes a function), `isinstance(var_0, sut_.Point)` is false for an instance of the first
+class — while `_is_type_importable` rejects both and the type-name assertion passes
+(`C20_typeName`). -/
+theorem C20_resolution_without_identity_cex :
+    let te : TypeEnv := ⟨"sut", cexWorld, some (.other 1)⟩
+    let registry : TypeId := ⟨"sut", ["Registry"], 0⟩
+    let point0 : TypeId := ⟨"sut", ["Point"], 0⟩
+    let ns (t : TypeId) : Namespace :=
+      { vars := [("var_0", .obj t none)], enumClasses := [], globals := [("sut_", .other 1)],
+        world := cexWorld, hasPytest := true }
+    isTypeImportableByName te registry = true ∧ isTypeImportable te registry = false ∧
+    isTypeImportableByName te point0 = true ∧ isTypeImportable te point0 = false ∧
+    isTypeImportable te ⟨"sut", ["Point"], 1⟩ = true ∧
+    evalStmt (ns registry) (render ⟨fun m => m ++ "_"⟩ (.fin false 1) (.isInstance "var_0" registry)) = none ∧
+    evalStmt (ns point0) (render ⟨fun m => m ++ "_"⟩ (.fin false 1) (.isInstance "var_0" point0))
+      = some false := by
+  refine ⟨by decide, by decide, by decide, by decide, by decide, ?_, ?_⟩
+  · simp [render, evalStmt, aeval, lookup, typeExpr, exprPath, Namespace.resolve, cexWorld, World.walk]
+  · simp [render, evalStmt, aeval, lookup, typeExpr, exprPath, Namespace.resolve, cexWorld, World.walk,
+      instanceOf, AVal.typeOf, builtinType]
 
 /-! ## Everything the observer emits -/
 
@@ -241,7 +328,8 @@ def C20_full : Prop :=
 
 /-- The namespace of an exported test: one variable, `pytest`, no bare enum class names. -/
 def exportNs (src : String) (v : AVal) : Namespace :=
-  { vars := [(src, v)], enumClasses := [], types := [], hasPytest := true }
+  { vars := [(src, v)], enumClasses := [], globals := [], world := ⟨fun _ _ => none, .other 0⟩,
+    hasPytest := true }
 
 theorem observed_exportNs (v : AVal) : Observed (exportNs "var_0" v) "var_0" v :=
   ⟨by decide, by decide, by simp [exportNs, lookup]⟩
@@ -274,11 +362,21 @@ theorem C20_enum_unbound_cex :
 
 theorem C20_full_cex : ¬ C20_full := by
   intro h
-  have te : TypeEnv := ⟨"m", fun _ => false⟩
-  have := h ⟨"m", fun _ => false⟩ ⟨fun m => m ++ "_"⟩ (exportNs "var_0" (.float (.nan false))) "var_0"
+  have hni : ∀ t, isTypeImportable ⟨"m", ⟨fun _ _ => none, .other 0⟩, none⟩ t = false := by
+    intro t
+    simp only [isTypeImportable, typeOwner]
+    split
+    · rename_i o ho
+      split at ho
+      · cases t with
+        | mk m q k => cases q <;> simp_all [World.walk] <;> (subst ho; simp)
+      · split at ho <;> simp at ho
+    · rfl
+  have := h ⟨"m", ⟨fun _ _ => none, .other 0⟩, none⟩ ⟨fun m => m ++ "_"⟩
+    (exportNs "var_0" (.float (.nan false))) "var_0"
     (.float (.nan false)) 1 (observed_exportNs _)
-    ⟨by decide, by intro t ht; simp at ht, by intro t ht; simp at ht,
-     by intro t ht; simp [isTypeImportable] at ht⟩
+    ⟨by decide, by intro t ht; simp [hni] at ht, by intro t ht; simp [hni] at ht, rfl,
+     by intro m hm; simp at hm, by intro n o hl; simp [exportNs, lookup] at hl, rfl⟩
     rfl (.float "var_0" (.nan false)) (by simp [checkValue])
   rw [C20_nan_float_cex] at this
   simp at this
@@ -323,16 +421,16 @@ whose name is not bound in `builtins` (the rendered `isinstance(var_0, dict_keys
 `NameError`), and every class of the module under test, e.g. one defined inside a function, whose
 qualified name contains `<locals>` (`cst.Name("<locals>")` is a `CSTValidationError`). -/
 theorem C20_old_cex_isinstance :
-    let te : TypeEnv := ⟨"sut", fun _ => false⟩
-    let dictKeys : TypeId := ⟨"builtins", ["dict_keys"]⟩
-    let loc : TypeId := ⟨"sut", ["mk", "<locals>", "Loc"]⟩
+    let te : TypeEnv := ⟨"sut", ⟨fun _ _ => none, .other 0⟩, some (.other 1)⟩
+    let dictKeys : TypeId := ⟨"builtins", ["dict_keys"], 0⟩
+    let loc : TypeId := ⟨"sut", ["mk", "<locals>", "Loc"], 0⟩
     isTypeImportableOld te dictKeys = true ∧ isTypeImportable te dictKeys = false ∧
     evalStmt (exportNs "var_0" (.obj dictKeys (some 0)))
       (render ⟨fun m => m ++ "_"⟩ (.fin false 1) (.isInstance "var_0" dictKeys)) = none ∧
     isTypeImportableOld te loc = true ∧
     (render ⟨fun m => m ++ "_"⟩ (.fin false 1) (.isInstance "var_0" loc)).valid = false := by
   refine ⟨by decide, by decide, ?_, by decide, ?_⟩
-  · simp [render, evalStmt, exportNs, aeval, lookup, typeExpr, exprPath, lookupPath, joinDots]
+  · simp [render, evalStmt, exportNs, aeval, lookup, typeExpr, exprPath, Namespace.resolve, joinDots]
   · simp [render, Stmt.valid, typeExpr, namesValid, validIdent, Expr.valid]
 
 /-! ## The observer path: assertions recorded over a whole test case
@@ -348,26 +446,26 @@ is over.  `Snapshot` = the namespace after one statement with every value deep-c
 reference paths that are no keywords; no NaN; enum classes bound; the exported namespace resolves the
 importable types. -/
 structure SnapshotOk (te : TypeEnv) (env : RenderEnv) (enums : List String)
-    (types : List (List String × TypeId)) (s : Snapshot) : Prop where
+    (globals : List (String × PyRef)) (s : Snapshot) : Prop where
   keys_nodup : ((s.flat (env.alias te.moduleName)).map Prod.fst).Nodup
   srcs_ok : ∀ p, p ∈ s.flat (env.alias te.moduleName) →
     (p.1 != "") = true ∧ p.1 ≠ "None" ∧ p.1 ≠ "True" ∧ p.1 ≠ "False"
   nan_free : ∀ p, p ∈ s.flat (env.alias te.moduleName) → p.2.nanFree = true
   enums_ok : ∀ p, p ∈ s.flat (env.alias te.moduleName) → p.2.enumsOk enums = true
-  env_ok : EnvOk te env (nsAt (env.alias te.moduleName) enums types s)
+  env_ok : EnvOk te env (nsAt (env.alias te.moduleName) enums globals te.world s)
 
 /-- One position: whatever the watch list is, every assertion `_handle` records after a statement is
 valid and passes in the namespace of the exported test *right after that statement*. -/
 theorem C20_position_partial (te : TypeEnv) (env : RenderEnv) (enums : List String)
-    (types : List (List String × TypeId)) (pm : Nat) (s : Snapshot)
-    (hok : SnapshotOk te env enums types s) (w : List String) :
+    (globals : List (String × PyRef)) (pm : Nat) (s : Snapshot)
+    (hok : SnapshotOk te env enums globals s) (w : List String) :
     ∀ a, a ∈ (handle te (env.alias te.moduleName) w s).2 →
       (render env (.fin false pm) a).valid = true ∧
-      evalStmt (nsAt (env.alias te.moduleName) enums types s) (render env (.fin false pm) a) = some true := by
+      evalStmt (nsAt (env.alias te.moduleName) enums globals te.world s) (render env (.fin false pm) a) = some true := by
   intro a ha
   obtain ⟨p, hp, hpa⟩ := mem_handle te _ w s a ha
   have hs := hok.srcs_ok p hp
-  have hobs : Observed (nsAt (env.alias te.moduleName) enums types s) p.1 p.2 :=
+  have hobs : Observed (nsAt (env.alias te.moduleName) enums globals te.world s) p.1 p.2 :=
     ⟨hs.1, hs.2, lookup_of_mem_nodup _ p.1 p.2 hok.keys_nodup hp⟩
   exact C20_observed_partial te env _ p.1 p.2 pm hobs hok.env_ok rfl (hok.nan_free p hp)
     (hok.enums_ok p hp) a hpa
@@ -376,18 +474,18 @@ theorem C20_position_partial (te : TypeEnv) (env : RenderEnv) (enums : List Stri
 assertion recorded for position `i` is valid and passes in the namespace of position `i` — the
 positions are paired with their own snapshots. -/
 theorem C20_trace_partial (te : TypeEnv) (env : RenderEnv) (enums : List String)
-    (types : List (List String × TypeId)) (pm : Nat) :
-    ∀ (ss : List Snapshot) (w : List String), (∀ s, s ∈ ss → SnapshotOk te env enums types s) →
+    (globals : List (String × PyRef)) (pm : Nat) :
+    ∀ (ss : List Snapshot) (w : List String), (∀ s, s ∈ ss → SnapshotOk te env enums globals s) →
     ∀ p, p ∈ ss.zip (traceFrom te (env.alias te.moduleName) w ss) → ∀ a, a ∈ p.2 →
       (render env (.fin false pm) a).valid = true ∧
-      evalStmt (nsAt (env.alias te.moduleName) enums types p.1) (render env (.fin false pm) a) = some true
+      evalStmt (nsAt (env.alias te.moduleName) enums globals te.world p.1) (render env (.fin false pm) a) = some true
   | [], _, _, p, hp, _, _ => by simp at hp
   | s :: r, w, hok, p, hp, a, ha => by
       simp only [traceFrom, List.zip_cons_cons, List.mem_cons] at hp
       rcases hp with hp | hp
       · subst hp
-        exact C20_position_partial te env enums types pm s (hok s (by simp)) w a ha
-      · exact C20_trace_partial te env enums types pm r (nextWatch w s)
+        exact C20_position_partial te env enums globals pm s (hok s (by simp)) w a ha
+      · exact C20_trace_partial te env enums globals pm r (nextWatch w s)
           (fun s' hs' => hok s' (by simp [hs'])) p hp a ha
 
 /-- Later statements do not change what is recorded for earlier positions. -/
@@ -460,11 +558,12 @@ theorem C20_no_copy_cex :
 /-- Non-vacuity of `SnapshotOk` / `C20_trace_partial`: an object with a nested list attribute, a class
 attribute and a module attribute. -/
 example :
-    let te : TypeEnv := ⟨"sut", fun t => t == ⟨"sut", ["Grid"]⟩ || t == ⟨"builtins", ["list"]⟩⟩
+    let te : TypeEnv := ⟨"sut", ⟨fun o n => if o = .other 1 ∧ n = "Grid" then some (.cls ⟨"sut", ["Grid"], 0⟩)
+      else if o = .other 0 ∧ n = "list" then some (.cls ⟨"builtins", ["list"], 0⟩) else none, .other 0⟩, some (.other 1)⟩
     let s : Snapshot := ⟨"var_0",
-      [("var_0", .inst ⟨"sut", ["Grid"]⟩ none [("rows", .list [.list [.int 1], .list [.int 2]])])],
+      [("var_0", .inst ⟨"sut", ["Grid"], 0⟩ none [("rows", .list [.list [.int 1], .list [.int 2]])])],
       [("REG", .plain (.dict [(.str [107], .list [.none])]))],
-      [(⟨"sut", ["Grid"]⟩, [("count", .plain (.int 3))])]⟩
+      [(⟨"sut", ["Grid"], 0⟩, [("count", .plain (.int 3))])]⟩
     (handle te "sut_" [] s).2.length = 4 ∧
     ((s.flat "sut_").map Prod.fst).Nodup := by
   refine ⟨by decide, by decide⟩
